@@ -28,6 +28,7 @@ def dispatch (line : String) : String :=
   | "iter" :: rest => (handleIter rest).getD "BAD-CASE\t0"
   | "itercount" :: rest => (handleIterCount rest).getD "BAD-CASE\t0"
   | "iterstep" :: rest => (handleIterStep rest).getD "BAD-CASE\t0"
+  | "recvpause" :: rest => (handleRecvPause rest).getD "BAD-CASE\t0"
   | "recv" :: rest => (handleRecv rest).getD "BAD-CASE\t0"
   | "gen" :: rest => (handleGen rest).getD "BAD-CASE\t0"
   | "netparse" :: rest => (handleNetParse rest).getD "BAD-CASE\t0"
